@@ -660,7 +660,7 @@ impl<'a> Searcher<'a> {
                     match entry {
                         Ok(entry) => {
                             let mut path = entry.path();
-                            let pass_ignores = if apply_gitignore || apply_hgignore || apply_dockerignore {
+                            let (pass_ignores, enter_anyway) = if apply_gitignore || apply_hgignore || apply_dockerignore {
                                 // the entry is judged by its own name: its directory is made canonical,
                                 // the entry itself is not resolved if it is a symbolic link
                                 let mut canonical_path = path.clone();
@@ -716,14 +716,21 @@ impl<'a> Searcher<'a> {
                                     canonical_path.to_string_lossy().as_ref(),
                                 );
 
-                                pass_gitignore && pass_hgignore && pass_dockerignore
+                                // Docker walks into an excluded directory as soon as there is a `!` pattern:
+                                // it may re-include something inside (`sub`, then `!sub/keep.txt`)
+                                let enter_anyway = !pass_dockerignore
+                                    && pass_gitignore
+                                    && pass_hgignore
+                                    && self.dockerignore_filters.iter().any(|filter| filter.negate);
+
+                                (pass_gitignore && pass_hgignore && pass_dockerignore, enter_anyway)
                             } else {
-                                true
-                            };                            
+                                (true, false)
+                            };
 
                             // If the path passes the filters, process it
-                            if pass_ignores {
-                                if min_depth == 0 || depth >= min_depth {
+                            if pass_ignores || enter_anyway {
+                                if pass_ignores && (min_depth == 0 || depth >= min_depth) {
                                     let checked = self.check_file(&entry, &None)?;
                                     if !checked {
                                         return Ok(());
